@@ -28,7 +28,7 @@ ASSUMPTIONS = c04.ASSUMPTIONS + [
     "canonical data = values equal to what their own rendering reads back to (decided with the model's renderer/parser, which is itself compared with the code on every case)",
 ]
 TRUSTED = []
-NOT_THEOREMS = ['read(write D) = D under Spec.C05.inDomain: evaluated per case on model and implementation (needs the C01 float/date laws)']
+NOT_THEOREMS = ['the per-record premise inside Spec.C05.typedOk (the data-only line reads back to the data: C01) is decided per case by the model for float and date fields; Props.C05.main proves everything the file layer adds, for all inputs in Spec.C05.inDomain']
 EXHAUSTIVE = {"quick": False, "thorough": False}
 IDENTS = ["AA", "BB", "C1", "DD7", "E", "F-", "GG", "H_H"]
 
